@@ -45,7 +45,13 @@
 (* its cache (StaleFilterOK).  Both may also fail on any call (MaxFail).   *)
 (* Notifications: the subscription manager queues, per subscriber, the     *)
 (* backlog by height at registration time and then every event; `nq` is    *)
-(* the queue of the rescan's live subscription.                            *)
+(* the queue of the rescan's live subscription.  With SplitNotify a chain  *)
+(* event first changes the stores and hands its notification to the        *)
+(* manager in a second step (Emit; the block manager blocks in that send,  *)
+(* so at most one notification is outstanding): a subscription registered  *)
+(* in between finds the block in its backlog AND receives the live         *)
+(* notification (duplicate), or receives a Disconnected for a block it     *)
+(* never saw.                                                              *)
 (*                                                                         *)
 (* The 100 ms retry timer (blockRetrySignal) is pending exactly while the  *)
 (* retry queue is not empty and the rescan sits in its select (a timer     *)
@@ -66,16 +72,18 @@ CONSTANTS MaxExt,        \* blocks the chain may gain
           Lag,           \* filter headers may trail block headers
           StaleFilterOK, \* GetCFilter may serve a block that left the chain
           WithQuit,      \* the caller may close the quit channel
+          SplitNotify,   \* a chain event and its notification are two steps
           FixCatchupReorg
 
 VARIABLES chain, fh, nq, subOn, upd,
+          outbox, \* the notification of the last chain event, not yet handed to the manager
           nExt, nRb, nFail, nUpd, nNotCur,
           pc, arg, ctx, pb, rwT, cur, scanning, retryQ, wA, wO, st,
           ev,    \* label: callbacks delivered by the last action
           abs, act, viol
 
 rvars == <<pc, arg, ctx, pb, rwT, cur, scanning, retryQ, wA, wO, st, ev, upd, nq, subOn>>
-vars  == <<chain, fh, nq, subOn, upd, nExt, nRb, nFail, nUpd, nNotCur,
+vars  == <<chain, fh, nq, subOn, upd, outbox, nExt, nRb, nFail, nUpd, nNotCur,
            pc, arg, ctx, pb, rwT, cur, scanning, retryQ, wA, wO, st, ev, abs, act, viol>>
 
 ----------------------------------------------------------------------------
@@ -256,7 +264,7 @@ Finish(a) ==
   /\ abs'  = AbsNext(abs, a, Obs')
   /\ viol' = Viol(abs, Obs, a, abs', Obs')
 
-UnchEnv == UNCHANGED <<chain, fh, nExt, nRb, nUpd>>
+UnchEnv == UNCHANGED <<chain, fh, outbox, nExt, nRb, nUpd>>
 
 ----------------------------------------------------------------------------
 \* Rescan.Start -> newRescanState (:317; the start block is looked up by hash
@@ -400,45 +408,58 @@ SendUpd(i) ==
                    [] pc = "w2sel" -> EnterWSel(r0, 2)
                    [] OTHER        -> r0)
          /\ Finish([op |-> "SendUpd", res |-> "ok", b |-> -1, add |-> u.add, rw |-> u.rw])
-  /\ UNCHANGED <<chain, fh, nExt, nRb, nFail, nNotCur>>
+  /\ UNCHANGED <<chain, fh, outbox, nExt, nRb, nFail, nNotCur>>
 
 \* ---- chain growth and reorganisation (one block per step) ----
 Notify(n) == IF subOn THEN Append(nq, n) ELSE nq
 
 UnchRescan == UNCHANGED <<pc, arg, ctx, pb, rwT, cur, scanning, retryQ, wA, wO, st, upd, subOn>>
 
+\* a chain event's notification: delivered to the manager at once, or kept
+\* for a separate Emit step
+PostNtfn(n) == IF SplitNotify THEN outbox' = <<n>> /\ nq' = nq
+                          ELSE outbox' = outbox /\ nq' = Notify(n)
+
 Extend(b) ==
-  /\ Running /\ nExt < MaxExt
+  /\ Running /\ nExt < MaxExt /\ outbox = <<>>
   /\ b \in Blocks /\ ParentOf(b) = chain[Len(chain)]
   /\ Lag \/ fh = TipH
   /\ chain' = Append(chain, b)
   /\ nExt' = nExt + 1
-  /\ IF Lag THEN fh' = fh /\ nq' = nq
-            ELSE fh' = fh + 1 /\ nq' = Notify([k |-> 1, b |-> b])
+  /\ IF Lag THEN fh' = fh /\ nq' = nq /\ outbox' = outbox
+            ELSE fh' = fh + 1 /\ PostNtfn([k |-> 1, b |-> b])
   /\ ev' = <<>> /\ UnchRescan /\ UNCHANGED <<nRb, nFail, nUpd, nNotCur>>
   /\ Finish(A("Extend", "ok", b))
 
 AddFH ==
-  /\ Running /\ Lag /\ fh < TipH
+  /\ Running /\ Lag /\ fh < TipH /\ outbox = <<>>
   /\ fh' = fh + 1
-  /\ nq' = Notify([k |-> 1, b |-> chain[fh + 2]])
+  /\ PostNtfn([k |-> 1, b |-> chain[fh + 2]])
   /\ ev' = <<>> /\ UnchRescan /\ UNCHANGED <<chain, nExt, nRb, nFail, nUpd, nNotCur>>
   /\ Finish(A("AddFH", "ok", chain[fh + 2]))
 
 Rollback ==
-  /\ Running /\ nRb < MaxRb /\ Len(chain) > 1
+  /\ Running /\ nRb < MaxRb /\ Len(chain) > 1 /\ outbox = <<>>
   /\ nRb' = nRb + 1
   /\ ev' = <<>> /\ UnchRescan /\ UNCHANGED <<nExt, nFail, nUpd, nNotCur>>
   /\ LET b == chain[Len(chain)]
      IN  /\ chain' = SubSeq(chain, 1, Len(chain) - 1)
          /\ fh' = IF fh = TipH THEN fh - 1 ELSE fh
-         /\ nq' = Notify([k |-> 2, b |-> b])
+         /\ PostNtfn([k |-> 2, b |-> b])
          /\ Finish(A("Rollback", "ok", b))
+
+\* the block manager's send to the subscription manager is taken
+Emit ==
+  /\ Running /\ outbox # <<>>
+  /\ nq' = Notify(outbox[1])
+  /\ outbox' = <<>>
+  /\ ev' = <<>> /\ UnchRescan /\ UNCHANGED <<chain, fh, nExt, nRb, nFail, nUpd, nNotCur>>
+  /\ Finish(A("Emit", IF outbox[1].k = 1 THEN "conn" ELSE "disc", outbox[1].b))
 
 ----------------------------------------------------------------------------
 Init ==
   /\ chain = InitChain /\ fh = InitFH
-  /\ nq = <<>> /\ subOn = FALSE /\ upd = <<>>
+  /\ nq = <<>> /\ subOn = FALSE /\ upd = <<>> /\ outbox = <<>>
   /\ nExt = 0 /\ nRb = 0 /\ nFail = 0 /\ nUpd = 0 /\ nNotCur = 0
   /\ pc = "idle" /\ arg = -1 /\ ctx = "" /\ pb = -1 /\ rwT = 0
   /\ cur = StartB /\ scanning = FALSE /\ retryQ = <<>>
@@ -456,7 +477,7 @@ Next ==
   \/ Ntfn \/ Retry \/ Quit
   \/ \E i \in 1..Len(Updates) : SendUpd(i)
   \/ \E b \in Blocks : Extend(b)
-  \/ AddFH \/ Rollback
+  \/ AddFH \/ Rollback \/ Emit
 
 Spec == Init /\ [][Next]_vars
 
@@ -464,18 +485,18 @@ Spec == Init /\ [][Next]_vars
 TypeOK ==
   /\ fh >= 0 /\ fh <= TipH /\ Len(chain) >= 1
   /\ cur \in Blocks /\ st \in {0, 1, 2}
-  /\ Len(upd) <= 1
+  /\ Len(upd) <= 1 /\ Len(outbox) <= 1
   /\ (pc = "sel" => Len(upd) = 0)
 
 \* C09 on the model (an invariant only for repaired code; otherwise the
 \* violating transitions are exported and replayed on the real rescan)
 NoViolation == viol = {}
 
-State == [chain |-> chain, fh |-> fh, nq |-> nq, subOn |-> subOn, upd |-> upd,
+State == [chain |-> chain, fh |-> fh, nq |-> nq, subOn |-> subOn, upd |-> upd, outbox |-> outbox,
           n |-> <<nExt, nRb, nFail, nUpd, nNotCur>>,
           pc |-> pc, arg |-> arg, ctx |-> ctx, pb |-> pb, rwT |-> rwT, cur |-> cur,
           scanning |-> scanning, retryQ |-> retryQ, wA |-> wA, wO |-> wO, st |-> st,
           abs |-> abs]
-View == <<chain, fh, nq, subOn, upd, nExt, nRb, nFail, nUpd, nNotCur,
+View == <<chain, fh, nq, subOn, upd, outbox, nExt, nRb, nFail, nUpd, nNotCur,
           pc, arg, ctx, pb, rwT, cur, scanning, retryQ, wA, wO, st, abs>>
 =============================================================================
